@@ -938,7 +938,11 @@ func (ctx Ctx) callExpr(s *ast.CallExpr) coq.Expr {
 					structName := ctx.typeOf(s.Args[j]).String()
 					interfaceName = unqualifyName(interfaceName)
 					structName = unqualifyName(structName)
-					if interfaceName != structName && interfaceName != "" && structName != "" {
+					// (a struct of another package may have the interface's name)
+					if !types.Identical(signature.Params().At(j).Type(), ctx.typeOf(s.Args[j])) &&
+						interfaceName != "" && structName != "" {
+						// the arguments are passed one by one
+						ctx.checkNotVariadic(s)
 						// the conversion S__to__I exists for a named interface and a
 						// struct value only
 						if _, ok := signature.Params().At(j).Type().(*types.Named); !ok {
@@ -2608,7 +2612,8 @@ func (ctx Ctx) callExprInterface(cvs []coq.Decl, r *ast.CallExpr) []coq.Decl {
 	var methods []string
 	if signature, ok := ctx.typeOf(r.Fun).(*types.Signature); ok {
 		params := signature.Params()
-		for j := 0; j < params.Len(); j++ {
+		// (only the first argument is converted, see callExpr)
+		for j := 0; j < params.Len() && j < 1; j++ {
 			if _, ok := params.At(j).Type().(*types.Named); !ok {
 				// a conversion is named after the interface type: type
 				// literals have none (the call itself is reported)
@@ -2622,7 +2627,15 @@ func (ctx Ctx) callExprInterface(cvs []coq.Decl, r *ast.CallExpr) []coq.Decl {
 				}
 			}
 		}
-		for _, arg := range r.Args {
+		for i, arg := range r.Args {
+			if i > 0 || interfaceName == "" {
+				break
+			}
+			named, ok := ctx.typeOf(arg).(*types.Named)
+			if !ok || named.TypeArgs().Len() > 0 {
+				// the definition is named after the struct type
+				continue
+			}
 			structName := ctx.typeOf(arg).String()
 			structName = unqualifyName(structName)
 			if _, ok := ctx.typeOf(arg).Underlying().(*types.Struct); ok {
